@@ -1185,3 +1185,214 @@ Proof.
   unfold rg_construct, rg_mk in Hmk. cbn [rg_pol rg_clamp] in Hmk. rewrite rg_mk_table_ById in Hmk.
   apply rg_ok_inj in Hmk. subst s0. cbn [rg_nc rg_pmap]. apply rg_pmap_onto_345. exact Hnp.
 Qed.
+
+(* ================================================================= J. orthogonality at the level of the whole iteration *)
+Lemma rg_fold_inv_idx {S} (P : list nat -> S -> Prop) (f : S -> nat -> rg_out S) :
+  (forall done i st st', P done st -> ~ In i done -> f st i = RgOk st' -> P (i :: done) st') ->
+  forall l done0 init res, NoDup l -> (forall i, In i l -> ~ In i done0) -> P done0 init ->
+  fold_left (fun acc i => rg_bind acc (fun st => f st i)) l (RgOk init) = RgOk res -> P (rev l ++ done0) res.
+Proof.
+  intros Hstep. induction l as [|x l IH]; intros done0 init res Hnd Hdis Hi H; simpl in H.
+  - apply rg_ok_inj in H. subst. exact Hi.
+  - inversion Hnd as [|? ? Hx Hl]; subst.
+    destruct (f init x) as [st'| | |] eqn:E;
+      try (rewrite rg_fold_err in H by (intros a; discriminate); discriminate).
+    simpl. rewrite <- app_assoc. simpl. apply (IH (x :: done0) st' res); [exact Hl| | |exact H].
+    + intros i Hin [->|Hd]; [contradiction| apply (Hdis i); [right; exact Hin| exact Hd]].
+    + apply (Hstep done0 x init st'); [exact Hi| apply Hdis; left; reflexivity| exact E].
+Qed.
+
+Lemma rg_up_step_shape s reach w exl qs strat i st' :
+  rg_inv s -> (i < rg_nrm s)%nat -> rg_up_step s reach w (exl, qs, strat) i = RgOk st' ->
+  exists qrow sg srow', rg_strategy s (rg_node s i) = RgOk sg /\
+    st' = (rg_upd i (Qred (rg_dot qrow sg)) exl, rg_upd i qrow qs, rg_upd i srow' strat).
+Proof.
+  intros Hinv Hi. unfold rg_up_step.
+  rewrite (rg_nth_error_node s i (rg_inv_static s Hinv) Hi). cbn [rg_of_option rg_bind].
+  destruct (rg_child_ranks s (rg_node s i) _) as [ranks| | |]; cbn [rg_bind]; try discriminate.
+  destruct (rg_inv_strategy s i Hinv Hi) as [sg [E _]]. rewrite E. cbn [rg_bind].
+  destruct (nth_error strat i) as [srow|]; cbn [rg_of_option rg_bind]; try discriminate.
+  intros H. apply rg_ok_inj in H. subst st'. eexists. exists sg. eexists. split; [reflexivity| reflexivity].
+Qed.
+
+Definition rg_up_recorded (s : rg_rm) (done : list nat) (st : rg_up_state) : Prop :=
+  rg_up_ok s st /\
+  forall j, In j done -> (j < rg_nrm s)%nat ->
+    exists sg, rg_strategy s (rg_node s j) = RgOk sg /\
+               nth j (fst (fst st)) 0 = Qred (rg_dot (nth j (snd (fst st)) []) sg).
+
+Lemma rg_up_recorded_result s reach w exl0 st :
+  rg_inv s -> rg_nonneg reach -> 0 <= w -> rg_nonneg exl0 -> length exl0 = length (rg_r2i s) ->
+  rg_up s reach w exl0 = RgOk st -> rg_up_recorded s (seq 0 (rg_nrm s)) st.
+Proof.
+  intros Hinv Hr Hw Hex Hl Hup.
+  pose proof (rg_st_nrm_le s (rg_inv_static s Hinv)) as Hle.
+  assert (G : rg_up_recorded s (rev (rev (seq 0 (rg_nrm s))) ++ []) st).
+  { unfold rg_up in Hup. eapply (rg_fold_inv_idx (rg_up_recorded s)); [| | |
+      | exact Hup].
+    - intros done i st0 st' [Hok Hrec] Hnin Hstep.
+      destruct (Nat.lt_ge_cases i (rg_nrm s)) as [Hi|Hi].
+      + split; [exact (rg_up_step_ok s reach w st0 i st' Hinv Hi Hr Hw Hok Hstep)|].
+        destruct st0 as [[exl qs] strat]. destruct Hok as [_ [Hexl [Hql _]]].
+        destruct (rg_up_step_shape s reach w exl qs strat i st' Hinv Hi Hstep) as [qrow [sg [srow' [Esg ->]]]].
+        cbn [fst snd]. intros j [<-|Hj] Hjn.
+        * exists sg. split; [exact Esg|]. rewrite !rg_upd_nth_same by lia. reflexivity.
+        * assert (i <> j) by (intro; subst; contradiction).
+          destruct (Hrec j Hj Hjn) as [sg' [E1 E2]]. exists sg'. split; [exact E1|].
+          cbn [fst snd] in E2. rewrite !rg_upd_nth_other by assumption. exact E2.
+      + (* not reachable: the fold only visits ranks below nrm; kept total by showing the step fails *)
+        exfalso. destruct st0 as [[exl qs] strat]. unfold rg_up_step in Hstep.
+        destruct (nth_error (rg_r2i s) i) as [m|]; cbn [rg_of_option rg_bind] in Hstep; try discriminate.
+        destruct (rg_child_ranks s m _) as [ranks| | |]; cbn [rg_bind] in Hstep; try discriminate.
+        destruct (rg_strategy s m) as [sg| | |]; cbn [rg_bind] in Hstep; try discriminate.
+        destruct Hok as [_ [_ [_ [_ [Hsl _]]]]].
+        assert (En : nth_error strat i = None) by (apply nth_error_None; lia).
+        rewrite En in Hstep. discriminate.
+    - apply NoDup_rev. apply seq_NoDup.
+    - intros i _ [].
+    - split; [|intros j []].
+      unfold rg_up_ok. split; [exact Hex|]. split; [exact Hl|]. split; [unfold rg_zeros2; apply repeat_length|].
+      split; [|split; [apply (rg_inv_strat_len s Hinv)| apply (rg_inv_strat s Hinv)]].
+      intros j Hj. rewrite rg_nth_zeros2 by exact Hj. split; [unfold rg_zeros; apply repeat_length|].
+      intros a _ _. rewrite rg_nth_zeros. reflexivity. }
+  rewrite rev_involutive, app_nil_r in G. exact G.
+Qed.
+
+(* the regret added by one whole iteration, before plus-clipping, is orthogonal at every decision node to the strategy
+   played there; the new cumulative regret is that sum (plain) or its positive part (plus) *)
+Theorem rg_iteration_orthogonal s terminal used s' :
+  rg_inv s -> rg_nonneg terminal -> rg_iteration s terminal used = RgOk s' ->
+  exists qs exl,
+    rg_regret s' = rg_regret_update (rg_plus s) (rg_regret s) qs exl /\
+    forall i, (i < rg_nrm s)%nat ->
+      exists sg, rg_strategy s (rg_node s i) = RgOk sg /\
+        rg_dot sg (rg_map2 Qminus (nth i (rg_regret_update false (rg_regret s) qs exl) []) (nth i (rg_regret s) [])) == 0.
+Proof.
+  intros Hinv Ht H. apply rg_iteration_inv in H.
+  destruct H as [ur [reach [exl [qs [strat [Hd [Hu ->]]]]]]].
+  pose proof (rg_down_nonneg s reach Hinv Hd) as Hr.
+  assert (Hw : 0 <= (if rg_plus s then inject_Z (Z.of_nat (S (rg_iter s))) else 1)).
+  { destruct (rg_plus s); [|lra]. unfold Qle, inject_Z. simpl. lia. }
+  assert (Hrec : rg_up_recorded s (seq 0 (rg_nrm s)) (exl, qs, strat)).
+  { eapply rg_up_recorded_result; [exact Hinv| exact Hr| exact Hw| | |exact Hu].
+    - apply rg_write_all_Forall; [|apply rg_zeros_nonneg]. apply rg_Forall_snd_combine. exact Ht.
+    - rewrite rg_write_all_length. unfold rg_zeros. apply repeat_length. }
+  destruct Hrec as [[Hex [Hexl [Hql [Hqr _]]]] Hrec]. cbn [fst snd] in Hrec.
+  pose proof (rg_st_nrm_le s (rg_inv_static s Hinv)) as Hle. pose proof (rg_inv_reg_len s Hinv) as Hrl.
+  exists qs, exl. split; [reflexivity|]. intros i Hi.
+  destruct (Hrec i) as [sg [Esg Eev]]; [apply in_seq; lia| exact Hi|].
+  exists sg. split; [exact Esg|].
+  destruct (rg_inv_strategy s i Hinv Hi) as [sg' [Esg' [Hlsg [_ [Hsum _]]]]].
+  assert (sg' = sg) by congruence. subst sg'.
+  destruct (rg_inv_reg s Hinv i Hi) as [Hlen _]. destruct (Hqr i Hi) as [Hqlen _].
+  rewrite rg_regret_update_nth by lia. rewrite rg_dot_regret_delta by lia.
+  rewrite Eev, Qred_correct, Hsum, (rg_dot_comm (nth i qs []) sg). ring.
+Qed.
+
+(* ================================================================= K. no NaN under the invariant *)
+Lemma rg_of_option_no_nan {A} (o : option A) : rg_of_option o <> RgNaN.
+Proof. destruct o; discriminate. Qed.
+
+Lemma rg_mapM_no_nan {A B} (f : A -> rg_out B) l : (forall x, In x l -> f x <> RgNaN) -> rg_mapM f l <> RgNaN.
+Proof.
+  induction l as [|x l IH]; intros H; simpl; [discriminate|].
+  pose proof (H x (or_introl eq_refl)) as Hx.
+  destruct (f x) as [y| | |]; cbn [rg_bind]; try discriminate; [|congruence].
+  assert (Hl : rg_mapM f l <> RgNaN) by (apply IH; intros z Hz; apply H; right; exact Hz).
+  destruct (rg_mapM f l); cbn [rg_bind]; try discriminate. congruence.
+Qed.
+
+Lemma rg_meta_id_no_nan np pmap cs : rg_meta_id np pmap cs <> RgNaN.
+Proof.
+  unfold rg_meta_id.
+  assert (G : forall acc : rg_out N, acc <> RgNaN ->
+     fold_left (fun acc c => rg_bind acc (fun a =>
+        let k := rg_popcount c in
+        if (Nat.eqb k 0 || Nat.eqb k 1 || Nat.eqb k (2 ^ np))%nat then RgOk a
+        else match nth_error pmap (N.to_nat c) with
+             | None => RgIndexError
+             | Some z => if (z <? 0)%Z then RgValueError else RgOk (a + 2 ^ Z.to_N z)%N
+             end)) cs acc <> RgNaN).
+  { induction cs as [|c cs IH]; intros acc Ha; simpl; [exact Ha|]. apply IH.
+    destruct acc as [a| | |]; cbn [rg_bind]; try discriminate; [|congruence].
+    cbv zeta. destruct (_ || _)%bool; [discriminate|].
+    destruct (nth_error pmap (N.to_nat c)) as [z|]; [|discriminate]. destruct (z <? 0)%Z; discriminate. }
+  apply G. discriminate.
+Qed.
+
+Lemma rg_fold_no_nan {S} (P : S -> Prop) (f : S -> nat -> rg_out S) : forall l init,
+  P init ->
+  (forall st i st', In i l -> P st -> f st i = RgOk st' -> P st') ->
+  (forall st i, In i l -> P st -> f st i <> RgNaN) ->
+  fold_left (fun acc i => rg_bind acc (fun st => f st i)) l (RgOk init) <> RgNaN.
+Proof.
+  induction l as [|x l IH]; intros init Hi Hstep Hnn; simpl; [discriminate|].
+  pose proof (Hnn init x (or_introl eq_refl) Hi) as Hx.
+  destruct (f init x) as [st'| | |] eqn:E.
+  - apply IH.
+    + eapply Hstep; [left; reflexivity| exact Hi| exact E].
+    + intros st i st'' Hin. apply Hstep. right. exact Hin.
+    + intros st i Hin. apply Hnn. right. exact Hin.
+  - rewrite rg_fold_err by (intros a; discriminate). discriminate.
+  - rewrite rg_fold_err by (intros a; discriminate). discriminate.
+  - congruence.
+Qed.
+
+Lemma rg_child_ranks_no_nan s m pids : rg_child_ranks s m pids <> RgNaN.
+Proof. unfold rg_child_ranks. apply rg_mapM_no_nan. intros x _. apply rg_of_option_no_nan. Qed.
+
+Lemma rg_down_step_no_nan s reach i : rg_inv s -> (i < rg_nrm s)%nat -> rg_down_step s reach i <> RgNaN.
+Proof.
+  intros Hinv Hi. unfold rg_down_step.
+  rewrite (rg_nth_error_node s i (rg_inv_static s Hinv) Hi). cbn [rg_of_option rg_bind].
+  pose proof (rg_child_ranks_no_nan s (rg_node s i) (rg_children (rg_nc s) (rg_node s i))) as Hc.
+  destruct (rg_child_ranks s (rg_node s i) _) as [ranks| | |]; cbn [rg_bind]; try discriminate; [|congruence].
+  destruct (rg_inv_strategy s i Hinv Hi) as [sg [E _]]. rewrite E. cbn [rg_bind]. discriminate.
+Qed.
+
+Lemma rg_up_step_no_nan s reach w st i : rg_inv s -> (i < rg_nrm s)%nat -> rg_up_step s reach w st i <> RgNaN.
+Proof.
+  intros Hinv Hi. destruct st as [[exl qs] strat]. unfold rg_up_step.
+  rewrite (rg_nth_error_node s i (rg_inv_static s Hinv) Hi). cbn [rg_of_option rg_bind].
+  pose proof (rg_child_ranks_no_nan s (rg_node s i) (rg_children (rg_nc s) (rg_node s i))) as Hc.
+  destruct (rg_child_ranks s (rg_node s i) _) as [ranks| | |]; cbn [rg_bind]; try discriminate; [|congruence].
+  destruct (rg_inv_strategy s i Hinv Hi) as [sg [E _]]. rewrite E. cbn [rg_bind].
+  destruct (nth_error strat i); cbn [rg_of_option rg_bind]; discriminate.
+Qed.
+
+(* under the invariant an iteration never produces NaN (it can still fail with an index / shape error on ill-formed
+   used_actions); together with rg_rm_invariant: no iteration of any non-negative history does *)
+Theorem rg_iteration_no_nan s terminal used : rg_inv s -> rg_iteration s terminal used <> RgNaN.
+Proof.
+  intros Hinv. unfold rg_iteration.
+  match goal with |- rg_bind ?x _ <> _ => assert (Hm : x <> RgNaN) end.
+  { apply rg_mapM_no_nan. intros cs _. pose proof (rg_meta_id_no_nan (rg_np s) (rg_pmap s) cs) as Hc.
+    destruct (rg_meta_id (rg_np s) (rg_pmap s) cs); cbn [rg_bind]; try discriminate; [|congruence].
+    apply rg_of_option_no_nan. }
+  destruct (rg_mapM _ used) as [ur| | |]; cbn [rg_bind]; try discriminate; [|congruence].
+  destruct (negb _); [discriminate|].
+  assert (Hd : rg_down s <> RgNaN).
+  { unfold rg_down. apply (rg_fold_no_nan rg_nonneg).
+    - apply rg_upd_Forall; [lra| apply rg_zeros_nonneg].
+    - intros st i st' Hin Hst. apply in_seq in Hin. apply rg_down_step_nonneg; [exact Hinv| lia| exact Hst].
+    - intros st i Hin _. apply in_seq in Hin. apply rg_down_step_no_nan; [exact Hinv| lia]. }
+  destruct (rg_down s) as [reach| | |]; cbn [rg_bind]; try discriminate; [|congruence].
+  match goal with |- rg_bind ?x _ <> _ => assert (Hu : x <> RgNaN) end.
+  { unfold rg_up. apply (rg_fold_no_nan (fun _ => True)); [exact I| intros; exact I|].
+    intros st i Hin _. apply in_rev in Hin. apply in_seq in Hin. apply rg_up_step_no_nan; [exact Hinv| lia]. }
+  destruct (rg_up s reach _ _) as [[[exl qs] st]| | |]; cbn [rg_bind]; try discriminate. congruence.
+Qed.
+
+Theorem rg_run_no_nan clamp np nc lim plus s0 hist :
+  (1 <= lim)%nat -> (clamp = true \/ (lim <= nc)%nat) ->
+  rg_mk (rg_mkvariant ById clamp) np nc lim plus = RgOk s0 ->
+  Forall (fun tu => rg_nonneg (fst tu)) hist ->
+  rg_run s0 hist <> RgNaN.
+Proof.
+  intros H1 Hc Hmk. assert (Hinv : rg_inv s0) by (eapply rg_constructor_inv; eauto). clear Hmk.
+  revert s0 Hinv. induction hist as [|[t u] hist IH]; intros s0 Hinv Hh; simpl; [discriminate|].
+  inversion Hh as [|? ? Ht Hh']; subst. simpl in Ht.
+  pose proof (rg_iteration_no_nan s0 t u Hinv) as Hn.
+  destruct (rg_iteration s0 t u) as [s1| | |] eqn:E; cbn [rg_bind]; try discriminate; [|congruence].
+  apply IH; [eapply rg_rm_invariant_step; eauto| exact Hh'].
+Qed.
